@@ -6,7 +6,9 @@ CONSTANTS
   ExtSets = {"none", "default", "all", "allrev"}
   IdKinds = {"fresh", "pending"}
   Peers = {"OwnBare", "OwnFullSelf", "OwnFullOther", "Domain", "Contact", "ContactBare"}
+  Deferred = FALSE
+  MaxHosts = 2
   MaxHist = 99
-INVARIANTS TypeOK RequestAnswered ResponseNotAnswered NoReplyLoop TaskOnlyByResponse
+INVARIANTS TypeOK RequestAnswered ResponseNotAnswered NoReplyLoop TaskOnlyByResponse DeferredAnswered NothingLeftPending
 VIEW View
 CHECK_DEADLOCK FALSE
